@@ -1,5 +1,8 @@
 import FoxModel.Driver.Ops
 import FoxModel.Driver.Serve
+import FoxModel.Driver.ClientIP
+import FoxModel.Driver.Recorder
+import FoxModel.Driver.Recovery
 /-
   foxmodel — line-protocol driver: one case per input line (tab separated, first field = stream name),
   one output line per case. Core Lean only (links without Mathlib).
@@ -11,6 +14,9 @@ def dispatch (line : String) : String :=
   match fields.head? with
   | some "ops" => Driver.Ops.handle fields
   | some "serve" => Driver.Serve.handle fields
+  | some "clientip" => Driver.ClientIP.handle fields
+  | some "rw" => Driver.Recorder.handle fields
+  | some "recovery" => Driver.Recovery.handle fields
   | some "hist" => Driver.Ops.handle (fields.take 2)
   | _ => "M=unknown-stream"
 
